@@ -90,6 +90,12 @@ def cases(tier, seed):
             for cfg in cfgs:
                 sp = dict(spec); sp["x0"] = x0; sp["y0"] = [0.0] * len(spec["rows"])
                 out.append({"spec": sp, "cfg": cfg})
+            if i % 7 == 0 and si == 0:
+                # the same member with a problem that returns its STORED Hessian / Jacobian (CSR, CSC) on every call
+                for fmt in ("csr", "csc"):
+                    for cfg in (CONFIGS[0], CONFIGS[3], CONFIGS[5]):
+                        sp = dict(spec); sp["x0"] = x0; sp["y0"] = [0.0] * len(spec["rows"]); sp["policy"] = "const"; sp["fmt"] = fmt
+                        out.append({"spec": sp, "cfg": cfg})
     sizes = (20, 50) if tier == "quick" else (20, 50, 100, 200)
     for n in sizes:
         for pat in ("free", "boxed", "mixed"):
@@ -119,7 +125,7 @@ def run_case(case):
     if oc != "Optimal":
         viol.append({"sig": f"C03|not_solved|{oc}", "msg": f"class member {spec['tag']} start {spec['x0'][:4]} config {case['cfg']} ended {oc} after {it} iterations"})
     nontrivial = bool(spec["rows"]) or any(v not in ("inf", "-inf") for v in spec["var_lb"] + spec["var_ub"])
-    return {"outcome": oc, "key": f"{spec['tag']}|{spec['x0'][:3]}|{case['cfg']}" if nontrivial else None, "violations": viol, "stats": {"it": it}}
+    return {"outcome": oc, "key": f"{spec['tag']}|{spec['x0'][:3]}|{case['cfg']}|{spec.get('policy')}|{spec.get('fmt')}" if nontrivial else None, "violations": viol, "stats": {"it": it}}
 
 
 def summarize(cases_, results, tier):
